@@ -22,7 +22,7 @@ import DdsModel.Proofs.Pairing
 import DdsModel.Proofs.FieldsWF
 import DdsModel.Drv.C04
 namespace Dds.C04
-open Dds Dds.Conv Dds.Spec Dds.F32 Dds.Unc Dds.ConvProofs
+open Dds Dds.Conv Dds.Spec Dds.CF32 Dds.Unc Dds.ConvProofs
 
 /-! ### what "nearest" means -/
 
